@@ -224,7 +224,7 @@ func scenC04(r *Run) {
 				}
 			})
 		}
-		r.Drive(func() bool { return task.Done }, hugeHorizon, 50000)
+		r.Drive(func() bool { return task.Done }, hugeHorizon, 20000)
 		p.to = len(w.Conns)
 		if !task.Done {
 			r.Violate("C04", "scenario", "fetch-did-not-return", fmt.Sprintf("input %q never returned", raw))
